@@ -141,6 +141,11 @@ func hamtMutators() []mutator {
 		return 0
 	}
 	ms := []mutator{
+		// a child shard that holds nothing (no links, all-zero / absent bitfield): valid-looking, as left by a writer that
+		// removes entries without collapsing shards
+		{"gc-emptied", func(hc *HostileCase) { hc.block("gc").Links = nil; hc.block("gc").U.Data = []byte{} }},
+		{"ch-emptied", func(hc *HostileCase) { hc.block("ch").Links = nil; hc.block("ch").U.Data = []byte{} }},
+		{"gc-emptied-nobf", func(hc *HostileCase) { hc.block("gc").Links = nil; hc.block("gc").U.HasData = false }},
 		{"bf-long-root", func(hc *HostileCase) { hc.block("root").U.Data = []byte{0, 1, 0xff} }},
 		{"bf-long-child", func(hc *HostileCase) { hc.block("ch").U.Data = []byte{1, 2, 3, 4} }},
 		{"bf-zero-root", func(hc *HostileCase) { hc.block("root").U.Data = []byte{} }},
@@ -377,6 +382,8 @@ func reifyCases() []*HostileCase {
 	flinks := []HLink{{Name: sp(""), Tsize: ip(3), Target: "l1"}}
 	for _, ty := range []int64{0, 2} {
 		add("file", fmt.Sprintf("type%d-links", ty), one(HBlock{DataKind: "unixfs", U: &HUnixFS{Type: tp(ty), FileSize: up(3), BlockSizes: []uint64{3}}, Links: flinks}))
+		add("file", fmt.Sprintf("type%d-links-nofs", ty), one(HBlock{DataKind: "unixfs", U: &HUnixFS{Type: tp(ty), BlockSizes: []uint64{3}}, Links: flinks}))
+		add("file", fmt.Sprintf("type%d-links-bare", ty), one(HBlock{DataKind: "unixfs", U: &HUnixFS{Type: tp(ty)}, Links: flinks}))
 		add("file", fmt.Sprintf("type%d-inline", ty), one(HBlock{DataKind: "unixfs", U: &HUnixFS{Type: tp(ty), HasData: true, Data: []byte("inline data"), FileSize: up(11)}}))
 		add("file", fmt.Sprintf("type%d-empty", ty), one(HBlock{DataKind: "unixfs", U: &HUnixFS{Type: tp(ty)}}))
 		add("file", fmt.Sprintf("type%d-mode", ty), one(HBlock{DataKind: "unixfs", U: &HUnixFS{Type: tp(ty), HasData: true, Data: []byte("m"), Mode: u32(0o600)}}))
